@@ -776,7 +776,7 @@ func contextOf(req *ir.Request, full string, diff string) string {
 		// which field of the top-level message?
 		if len(parts) > 0 {
 			for _, f := range m.Fields {
-				if ir.JSONName(f.Name) == parts[0] && f.Kind == "message" && len(parts) > 1 && f.TypeName != ".google.protobuf.Timestamp" {
+				if f.JSON() == parts[0] && f.Kind == "message" && len(parts) > 1 && f.TypeName != ".google.protobuf.Timestamp" {
 					cm, _ := req.FindMessage(f.TypeName)
 					if cm != nil {
 						ctx := "child"
@@ -798,7 +798,7 @@ func contextOf(req *ir.Request, full string, diff string) string {
 	}
 	if len(parts) > 0 {
 		for _, f := range m.Fields {
-			if ir.JSONName(f.Name) == parts[0] {
+			if f.JSON() == parts[0] {
 				cm, _ := req.FindMessage(f.TypeName)
 				ctx := "child"
 				switch f.Card {
